@@ -14,6 +14,9 @@ META = {
     "not_decided": "eventual / exactly-once execution as a property of histories under all schedules",
 }
 
+META["explanation"] += " " + 'Also: callbacks are invoked with no library lock held (interprocedural may-lockset); who-may-write table for the helper-selection state (per-thread pointer, per-CPU array, default helper).'
+META["technique"] = "static analysis: must-pass-through ordering rules (splice ≺ grace period ≺ invoke, enqueue ≺ wake), who-may-call / who-may-write tables, locksets and wait-loop shapes over normalised LLVM IR of all four flavors' call_rcu implementation"
+
 class Flags:
     """call_rcu_data.flags bit values, derived from the IR of the memb flavor (who sets what)"""
     def __init__(self, ctx):
